@@ -17,6 +17,8 @@ from pathlib import Path
 
 VERIF = Path(__file__).resolve().parents[1]
 H = VERIF / "harmless"
+import os
+REPO = os.environ.get("NSTD_REPO", "/repo")   # a scratch worktree/snapshot when set; /repo otherwise
 
 
 def sh(cmd, cwd=None, timeout=3600):
@@ -59,10 +61,10 @@ def do_import(props):
 
 
 def do_run(ids, tier):
-    lock = open("/tmp/nstd-seedtest.lock", "w")
+    lock = open("/tmp/nstd-seedtest" + REPO.replace("/", "_") + ".lock", "w")
     fcntl.flock(lock, fcntl.LOCK_EX)
     ids = ids or sorted(d.name for d in H.iterdir() if (d / "patch.diff").exists())
-    dirty = sh(["git", "-C", "/repo", "status", "--porcelain", "--untracked-files=no"])[1].strip()
+    dirty = sh(["git", "-C", REPO, "status", "--porcelain", "--untracked-files=no"])[1].strip()
     if dirty:
         print("refusing: /repo dirty\n" + dirty)
         return
@@ -70,10 +72,10 @@ def do_run(ids, tier):
         d = H / hid
         meta = json.loads((d / "meta.json").read_text())
         p = meta["property"]
-        rc, o = sh(["git", "-C", "/repo", "apply", str(d / "patch.diff")])
+        rc, o = sh(["git", "-C", REPO, "apply", str(d / "patch.diff")])
         if rc != 0:
             print(f"{hid}: patch does not apply")
-            sh(["git", "-C", "/repo", "checkout", "HEAD", "--", "."])
+            sh(["git", "-C", REPO, "checkout", "HEAD", "--", "."])
             continue
         ev = VERIF / "evidence" / f"{p}.json"
         saved = ev.read_bytes() if ev.exists() else None
@@ -91,7 +93,7 @@ def do_run(ids, tier):
                 except OSError:
                     pass
         finally:
-            sh(["git", "-C", "/repo", "checkout", "HEAD", "--", "."])
+            sh(["git", "-C", REPO, "checkout", "HEAD", "--", "."])
             if saved is not None:               # evidence files describe runs on the unchanged tree only
                 ev.write_bytes(saved)
         old = json.loads((d / "result.json").read_text()) if (d / "result.json").exists() else {"runs": []}
